@@ -196,7 +196,7 @@ def coq_make(targets, timeout=1500, jobs=None):
     Returns (ok, output)."""
     coq_makefile()
     t = time.time()
-    cmd = ["make", "-j%d" % (jobs or NCPU)] + list(targets)
+    cmd = ["make", "-k", "-j%d" % (jobs or NCPU)] + list(targets)
     try:
         p = subprocess.run(cmd, cwd=COQ, stdout=subprocess.PIPE, stderr=subprocess.STDOUT,
                            text=True, timeout=timeout, env=ENV)
